@@ -226,6 +226,10 @@ impl Executor {
                 // The shared pointer is kept valid until the Executor is dropped,
                 // to avoid use-after-free issues with concurrent wakers.
                 unsafe { task.drop() };
+                // A waker on another thread may be inside `Remote::schedule` holding
+                // a pointer to `Shared`. Once the task leaves the queue, `clear` no
+                // longer waits for it, so wait here.
+                task.wait_for_scheduling();
                 queue.remove(id);
             } else {
                 queue.reset(id, task);
